@@ -62,3 +62,64 @@ def random_basis(rng, nmin=1, nmax=4, lmax=4, **kw):
 
 def specs_from(rep, key="basis"):
     return [ShellSpec.from_desc(d) for d in rep[key]]
+
+
+# ---- density-type quantities from the model's derivative values ---------------------------------
+class DerivCache:
+    """model values (and magnitude majorants) of d^p phi_a at points, on demand"""
+
+    def __init__(self, run, specs, pts, transform=None):
+        self.run, self.specs, self.pts, self.t = run, specs, np.asarray(pts, dtype=float), transform
+        self.cache = {}
+
+    def get(self, p):
+        p = tuple(int(v) for v in p)
+        if p not in self.cache:
+            line = (f"evalderiv general " + btok(self.specs) + f" {len(self.pts)} "
+                    + " ".join(core.enc(x) for x in self.pts.ravel()) + " %d %d %d" % p)
+            v, g = self.run.model.array_mag(line)
+            if self.t is not None:
+                v, g = self.t @ v, np.abs(self.t) @ g
+            self.cache[p] = (v, g)
+        return self.cache[p]
+
+    def D(self, gamma, p, q):
+        """(value, magnitude) of D(p;q) = sum_ab gamma_ab d^p phi_a d^q phi_b at every point"""
+        vp, gp = self.get(p)
+        vq, gq = self.get(q)
+        return np.einsum("ab,ap,bp->p", gamma, vp, vq), np.einsum("ab,ap,bp->p", np.abs(gamma), gp, gq)
+
+
+def parse_form(reply):
+    """'ok c:p:q ...' -> [(Fraction, p, q)]"""
+    from fractions import Fraction
+    toks = reply.split()
+    assert toks[0] == "ok", reply
+    out = []
+    for t in toks[1:]:
+        c, p, q = t.split(":")
+        out.append((Fraction(c), tuple(int(v) for v in p.split(",")), tuple(int(v) for v in q.split(","))))
+    return out
+
+
+def model_form(run, name, rationals=(), naturals=()):
+    from fractions import Fraction
+    qs = " ".join(f"{Fraction(q).numerator}/{Fraction(q).denominator}" for q in rationals)
+    ns = " ".join(str(int(n)) for n in naturals)
+    return parse_form(run.model.raw(f"form {name} {len(rationals)} {qs} {len(naturals)} {ns}"))
+
+
+def eval_form(form, dc, gamma):
+    val, mag = 0.0, 0.0
+    for c, p, q in form:
+        v, g = dc.D(gamma, p, q)
+        val = val + float(c) * v
+        mag = mag + abs(float(c)) * g
+    return val, mag
+
+
+def random_symmetric(rng, n, psd=False):
+    a = np.array([[core.snap(rng.uniform(-1, 1), 10) for _ in range(n)] for _ in range(n)])
+    if psd:
+        return a @ a.T
+    return (a + a.T) / 2
